@@ -755,6 +755,9 @@ pub struct Ics20Scen {
     contract: Option<Addr>,
     flights: Vec<Flight>,
     legacy: bool,
+    /// generator: the trace started from a legacy state and was migrated once (a later, second migrate must not
+    /// reconcile balances again)
+    migrated: bool,
     seed: u64,
     /// native denom of the form `xcw20:<token0>`
     xdenom: String,
@@ -784,6 +787,7 @@ impl Ics20Scen {
             contract: None,
             flights: vec![],
             legacy: false,
+            migrated: false,
             seed: 0,
             xdenom: String::new(),
             header_denoms: None,
@@ -879,6 +883,7 @@ impl Ics20Scen {
         self.contract = None;
         self.flights.clear();
         self.legacy = false;
+        self.migrated = false;
     }
 
     fn api(&self) -> MockApi {
@@ -1511,8 +1516,14 @@ impl Scenario for Ics20Scen {
         for c in &conn {
             redeemable += self.channel(c).unwrap_or_default().iter().filter(|e| e.1 > 0).count();
         }
+        if self.migrated && rng.chance(1, 20) {
+            // a second migrate of an already migrated contract (e.g. to set the default gas limit)
+            let gas = if rng.chance(1, 2) { "-".to_string() } else { self.gen_gas(rng) };
+            return format!("migrate gas={gas}");
+        }
         if self.legacy && rng.chance(1, 4) {
             self.legacy = false;
+            self.migrated = true;
             let gas = if rng.chance(1, 2) { "-".to_string() } else { self.gen_gas(rng) };
             return format!("migrate gas={gas}");
         }
